@@ -581,15 +581,26 @@ impl Cursor<'_> {
         false
     }
 
+    /// Eats the digits of one component of a version number. Unlike in a number literal,
+    /// underscores are not allowed: `OPENQASM 3_0;` is not a version.
+    fn eat_version_digits(&mut self) -> bool {
+        let mut has_digits = false;
+        while self.first().is_ascii_digit() {
+            has_digits = true;
+            self.bump();
+        }
+        has_digits
+    }
+
     fn openqasm_version(&mut self) -> (bool, bool) {
-        if !self.eat_decimal_digits() {
+        if !self.eat_version_digits() {
             return (false, false);
         }
         let c = self.first();
         if c == '.' {
             self.bump();
 
-            if !self.eat_decimal_digits() {
+            if !self.eat_version_digits() {
                 // Do not allow "3."
                 return (true, false);
             }
